@@ -6,6 +6,7 @@ import ScnrVerif.Model.SpecPat
 import ScnrVerif.Model.Class
 import ScnrVerif.Model.World
 import ScnrVerif.Model.Build
+import ScnrVerif.Model.Json
 import Std.Data.HashMap
 /-!
 # Line-protocol driver for the executable model (`lake exe scnr_model < case.in`)
@@ -365,6 +366,97 @@ def parsePat (ws : List String) : Option (Option FAst) :=
     | some (a, []) => some (some a)
     | _ => none
 
+/-! JSON trees: prefix notation `N T F | I n | X | S n cp.. | A n .. | O n (k<name> | ko n cp..) value ..` -/
+def keyOfName : String → Option Key
+  | "kname" => some .name | "kpatterns" => some .patterns | "ktransitions" => some .transitions
+  | "kpattern" => some .pattern | "ktoken_type" => some .tokenType | "klookahead" => some .lookahead
+  | "kis_positive" => some .isPositive | "kspan" => some .span | "kstart" => some .start | "kend" => some .stop
+  | "kstart_position" => some .startPosition | "kend_position" => some .endPosition | "kline" => some .line
+  | "kcolumn" => some .column | _ => none
+
+def keyName : Key → String
+  | .name => "name" | .patterns => "patterns" | .transitions => "transitions" | .pattern => "pattern"
+  | .tokenType => "token_type" | .lookahead => "lookahead" | .isPositive => "is_positive" | .span => "span"
+  | .start => "start" | .stop => "end" | .startPosition => "start_position" | .endPosition => "end_position"
+  | .line => "line" | .column => "column" | .other s => String.ofList (s.map Char.ofNat)
+
+def takeN (n : Nat) (ws : List String) : Option (List Nat × List String) :=
+  if ws.length < n then none else some ((ws.take n).filterMap String.toNat?, ws.drop n)
+
+partial def parseJson : List String → Option (Json × List String)
+  | "N" :: r => some (.null, r)
+  | "T" :: r => some (.bool true, r)
+  | "F" :: r => some (.bool false, r)
+  | "X" :: r => some (.float, r)
+  | "I" :: n :: r => n.toNat?.map fun n => (.num n, r)
+  | "S" :: n :: r => n.toNat?.bind fun n => (takeN n r).map fun (cs, r') => (.str cs, r')
+  | "A" :: n :: r => n.toNat?.bind fun n => (manyJ n r).map fun (xs, r') => (.arr xs, r')
+  | "O" :: n :: r => n.toNat?.bind fun n => (manyKV n r).map fun (kvs, r') => (.obj kvs, r')
+  | _ => none
+where
+  manyJ : Nat → List String → Option (List Json × List String)
+    | 0, r => some ([], r)
+    | n + 1, r => (parseJson r).bind fun (x, r') => (manyJ n r').map fun (xs, r'') => (x :: xs, r'')
+  manyKV : Nat → List String → Option (List (Key × Json) × List String)
+    | 0, r => some ([], r)
+    | n + 1, k :: r =>
+      let key : Option (Key × List String) :=
+        if k == "ko" then
+          match r with
+          | m :: r1 => m.toNat?.bind fun m => (takeN m r1).map fun (cs, r2) => (Key.other cs, r2)
+          | [] => none
+        else (keyOfName k).map fun kk => (kk, r)
+      key.bind fun (kk, r1) => (parseJson r1).bind fun (v, r2) => (manyKV n r2).map fun (kvs, r3) => ((kk, v) :: kvs, r3)
+    | _, [] => none
+
+/-- canonical printing: object fields sorted by the field name (as serde_json's map does) -/
+partial def showJson : Json → String
+  | .null => " N"
+  | .bool true => " T"
+  | .bool false => " F"
+  | .float => " X"
+  | .num n => s!" I {n}"
+  | .str s => s!" S {s.length}" ++ String.join (s.map fun c => s!" {c}")
+  | .arr xs => s!" A {xs.length}" ++ String.join (xs.map showJson)
+  | .obj kvs =>
+    let sorted := (kvs.toArray.qsort fun a b => keyName a.1 < keyName b.1).toList
+    s!" O {kvs.length}" ++ String.join (sorted.map fun (k, v) =>
+      (match k with
+       | .other s => s!" ko {s.length}" ++ String.join (s.map fun c => s!" {c}")
+       | k => " k" ++ keyName k) ++ showJson v)
+
+/-- configuration notation: `n_modes (S name, n_pat (S pattern, tid, 0 | 1 pos S la)*, n_trans (tid mode)*)*` -/
+def parseStrTok : List String → Option (List Nat × List String)
+  | "S" :: n :: r => n.toNat?.bind fun n => takeN n r
+  | _ => none
+
+partial def parseCfg (ws : List String) : Option (List ModeC) :=
+  match ws with
+  | n :: r => n.toNat?.bind fun n => (modes n r).map (·.1)
+  | [] => none
+where
+  modes : Nat → List String → Option (List ModeC × List String)
+    | 0, r => some ([], r)
+    | n + 1, r =>
+      (parseStrTok r).bind fun (name, r1) =>
+      match r1 with
+      | np :: r2 => np.toNat?.bind fun np => (pats np r2).bind fun (ps, r3) =>
+        match r3 with
+        | nt :: r4 => nt.toNat?.bind fun nt => (takeN (2 * nt) r4).bind fun (ts, r5) =>
+          (modes n r5).map fun (ms, r6) => (⟨name, ps, pairs ts⟩ :: ms, r6)
+        | [] => none
+      | [] => none
+  pats : Nat → List String → Option (List PatternC × List String)
+    | 0, r => some ([], r)
+    | n + 1, r =>
+      (parseStrTok r).bind fun (pat, r1) =>
+      match r1 with
+      | tid :: "0" :: r2 => tid.toNat?.bind fun tid => (pats n r2).map fun (ps, r3) => (⟨pat, tid, none⟩ :: ps, r3)
+      | tid :: "1" :: pos :: r2 =>
+        tid.toNat?.bind fun tid => (parseStrTok r2).bind fun (la, r3) =>
+          (pats n r3).map fun (ps, r4) => (⟨pat, tid, some ⟨pos != "0", la⟩⟩ :: ps, r4)
+      | _ => none
+
 def showWord (w : List Nat) : String := " ".intercalate (w.map toString)
 
 /-- State of the fast (untrusted) explorer: pairs, their index, successor hints, BFS parents. -/
@@ -682,6 +774,30 @@ def step (st : DState) (line : String) : DState × Option String :=
       | .syntaxError => "build syntax"
       | .unsupported => "build unsupported"
     (st, some res)
+  | "jser" :: r =>
+    (st, some (match parseCfg r with
+      | some ms => "json" ++ showJson (toJsonModes ms)
+      | none => "bad-op"))
+  | "jde" :: r =>
+    (st, some (match parseJson r with
+      | some (j, []) =>
+        match fromJsonModes j with
+        | some ms => "jde" ++ showJson (toJsonModes ms)
+        | none => "jde err"
+      | _ => "bad-op"))
+  | ["jmatch", t, a, b] =>
+    (st, some (match t.toNat?, a.toNat?, b.toNat? with
+      | some t, some a, some b => "json" ++ showJson (toJsonMatch ⟨t, ⟨a, b⟩⟩)
+      | _, _, _ => "bad-op"))
+  | ["jposition", l, c] =>
+    (st, some (match l.toNat?, c.toNat? with
+      | some l, some c => "json" ++ showJson (toJsonPosition ⟨l, c⟩)
+      | _, _ => "bad-op"))
+  | ["jmatchext", t, a, b, l1, c1, l2, c2] =>
+    (st, some (match [t, a, b, l1, c1, l2, c2].map String.toNat? with
+      | [some t, some a, some b, some l1, some c1, some l2, some c2] =>
+        "json" ++ showJson (toJsonMatchExt ⟨t, ⟨a, b⟩, ⟨l1, c1⟩, ⟨l2, c2⟩⟩)
+      | _ => "bad-op"))
   | "input" :: r => ({ st with input := nats r, iters := #[], specs := #[], table := #[] }, none)
   | ["finder", "model"] => ({ st with useTable := false }, none)
   | ["finder", "table"] => ({ st with useTable := true }, none)
